@@ -22,6 +22,7 @@ ASSUMPTIONS = ["bitmap canvases in generated inputs are limited to 512x512 so th
 A_LINES, C_LINES = 600, 60000
 B_MEM, M_MEM = 96, 2 << 20
 TIMEOUT_S = 60        # CPU seconds of this worker (ITIMER_VIRTUAL): immune to machine load
+UNDECIDED = []        # inputs on which the time limit fired inside the work bound (recorded in the evidence)
 FILES = REPO / "tests" / "files"
 
 
@@ -677,6 +678,11 @@ def oracle(case, io):
     dec = declared(sp["decoder"], bytes.fromhex("" if sp["hex"] == "-" else sp["hex"]), sp["aux"])
     if m["outcome"] == "recursion" and n >= 400:
         pass     # CPython's own recursion limit reached by nesting proportional to the input: an ordinary, bounded error
+    elif m["outcome"] == "timeout" and m["lines"] <= A_LINES * (n + dec) + C_LINES and m["peak"] <= B_MEM * (n + dec) + M_MEM:
+        # the CPU-time limit fired while the work done so far was still inside the bound the input's own declarations allow
+        # (e.g. a 353-byte score declaring 30 467 channels x 6 frames, measured under line counting): not decided, not a violation
+        UNDECIDED.append(f"{sp['decoder']} {n} bytes declaring {dec}: {m['lines']} lines in {TIMEOUT_S} CPU-s")
+        return None
     elif m["outcome"] not in ("ok", "error"):
         return f"{sp['decoder']}: outcome {m['outcome']} on a {n}-byte input (lines={m['lines']}, peak={m['peak']})"
     if m["lines"] > A_LINES * (n + dec) + C_LINES:
@@ -704,3 +710,10 @@ def _m_f37(case, f, p):
 
 
 MATCHERS = {"c10_decompiler_quadratic_in_jumps": _m_f37}
+
+def extra_stage(ctx, driver, stats):
+    """inputs on which the CPU-time limit fired while the executed lines and the peak allocation were inside the bound"""
+    ctx.cov["undecided_slow_inputs"] = dict(count=len(UNDECIDED), examples=UNDECIDED[:5])
+    if UNDECIDED:
+        ctx.notes.append(f"{len(UNDECIDED)} inputs hit the {TIMEOUT_S} CPU-s limit inside their work bound: not decided")
+
